@@ -106,7 +106,7 @@ MC.update({
 
 PROPS = {
     "C01": {"mc_quick": ["c01"], "mc_thorough": ["c01", "c01_deep", "c12q", "deep"],
-            "profiles": {"default": (100, 2000), "count": (100, 3000)}, "conf": {"conf_full": (60, 800)}},
+            "profiles": {"default": (100, 2000), "count": (100, 3000), "isolate": (40, 800)}, "conf": {"conf_full": (60, 800)}},
     "C02": {"mc_quick": ["c02q", "c02od"], "mc_thorough": ["c02", "c02od", "c02_deep", "deep"],
             "profiles": {"default": (80, 2000), "stop": (120, 3000), "ondemand": (50, 1200)}, "conf": {"conf_full": (40, 600), "conf_pat": (30, 400), "conf_od": (20, 300)}},
     "C03": {"mc_quick": ["c03q"], "mc_thorough": ["c03", "c03age", "deep"],
